@@ -9,9 +9,13 @@
 (*                share ONE sigma x sigma array as in the code: B(c0,c1)   *)
 (*                at c0*sigma+c1, Bstar(c0,c1) at c1*sigma+c0, and later the  *)
 (*                A-bucket ends in row sigma-1                             *)
-(*   3 sort B*    ssort + trSort: ABSTRACT here - the stage contract is    *)
-(*                "the B* suffixes are in suffix order" (Variant "swap"    *)
-(*                breaks the contract and TLC shows the result is wrong)   *)
+(*   3 sort B*    ssort + trSort: abstract for Variant "code" - the stage  *)
+(*                contract is "the B* suffixes are in suffix order"        *)
+(*                (Variant "swap" breaks the contract and TLC shows the    *)
+(*                result is wrong); Variant "impl" runs the transcribed    *)
+(*                engines SsortImpl.tla and TrSortImpl.tla instead, which  *)
+(*                makes the module a complete implementation-shaped model  *)
+(*                of suffix.Sort                                           *)
 (*   4 flags      B* positions written in sorted order, negated when the   *)
 (*                preceding suffix is of type A (or there is none)         *)
 (*   5 copy       B* groups moved to the front of their (c0,c1) regions,   *)
@@ -101,8 +105,34 @@ DecAll(t, sg, pos, k, arr) ==
   IF k > Len(pos) THEN arr
   ELSE DecAll(t, sg, pos, k + 1, [arr EXCEPT ![SIx(sg, Ch(t, pos[k]), Ch(t, pos[k] + 1))] = @ - 1])
 
+(* ---- stage 3, implementation-shaped: the two sorting engines (SsortImpl.tla, ---- *)
+(* ---- TrSortImpl.tla) on the arrays the driver builds for them                ---- *)
+SSI == INSTANCE SsortImpl
+TRS == INSTANCE TrSortImpl
+ImplThresholds == <<1, 1>>        \* sizeThreshold, trSizeThreshold used by Variant "impl" (SortCfg hook values)
+
+ImplSortedBStar(t, pos) ==
+  LET mm    == Len(pos)
+      pf    == [k \in 0..mm - 1 |-> pos[k + 1]]
+      keyOf(k) == <<t[pos[k + 1] + 1], t[pos[k + 1] + 2]>>
+      keys  == { keyOf(k) : k \in 0..mm - 1 }
+      KLess(c, c2) == c[1] < c2[1] \/ (c[1] = c2[1] /\ c[2] < c2[2])
+      ends0 == [c \in keys |-> Cardinality({ k \in 0..mm - 1 : keyOf(k) = c \/ KLess(keyOf(k), c) })]
+      pl    == SSI!Place([i \in 0..mm - 1 |-> 0], t, pos, 0, ends0, 0)
+      RECURSIVE desc(_, _)
+      desc(S, acc) == IF S = {} THEN acc
+                      ELSE LET c == CHOOSE c \in S : \A c2 \in S : c2 = c \/ KLess(c2, c)
+                           IN desc(S \ {c}, Append(acc, c))
+      a1    == SSI!SortBuckets(pl[1], t, pf, pl[2], desc(keys, <<>>), mm, pl[3], ImplThresholds[1])
+      rf    == SSI!RankFill(a1)
+      tr    == TRS!TrSort(rf[1], rf[2], ImplThresholds[2])
+  IN \* isa[l] = rank of the l-th B* suffix: the sorted list of positions
+     [r \in 1..mm |-> pos[(CHOOSE l \in 0..mm - 1 : tr.isa[l] = r - 1) + 1]]
+
 (* ---- stage 3 (abstract) + 4: sorted, flagged B* positions in sa[0..m) ---- *)
 SortedBStar(t, pos, variant) ==
+  IF variant = "impl" THEN (IF pos = <<>> THEN <<>> ELSE ImplSortedBStar(t, pos))
+  ELSE
   LET s == SortSeq(pos, LAMBDA a, b : SufLess(t, a, b)) IN
   IF variant = "swap" /\ Len(s) >= 2 THEN [s EXCEPT ![1] = s[2], ![2] = s[1]] ELSE s
 
